@@ -19,6 +19,7 @@ import (
 	openfgav1 "github.com/openfga/api/proto/openfga/v1"
 	"github.com/pressly/goose/v3"
 	"google.golang.org/grpc/codes"
+	"google.golang.org/grpc/metadata"
 	"google.golang.org/grpc/status"
 	"google.golang.org/protobuf/types/known/structpb"
 
@@ -124,11 +125,27 @@ func (c Cfg) Name() string {
 
 // Srv is a running in-process server.
 type Srv struct {
-	S    *server.Server
-	DS   storage.OpenFGADatastore // the raw backend (before WrapDS)
-	Cfg  Cfg
-	path string
+	S      *server.Server
+	DS     storage.OpenFGADatastore // the raw backend (before WrapDS)
+	Cfg    Cfg
+	path   string
+	shared bool // the datastore belongs to another Srv
 }
+
+// NewShared builds another server (different configuration) over the datastore of an existing one.
+func NewShared(cfg Cfg, owner *Srv) (*Srv, error) {
+	s, err := NewOn(cfg, noClose{owner.DS}, "")
+	if err != nil {
+		return nil, err
+	}
+	s.shared = true
+	return s, nil
+}
+
+// noClose shields a shared datastore from Server.Close.
+type noClose struct{ storage.OpenFGADatastore }
+
+func (noClose) Close() {}
 
 var sqliteSeq atomic.Int64
 
@@ -217,6 +234,9 @@ func NewOn(cfg Cfg, ds storage.OpenFGADatastore, path string) (*Srv, error) {
 		server.WithExperimentals(exps...),
 		server.WithListObjectsPipelineEnabled(cfg.LOEngine == "pipeline"),
 	}
+	if cfg.Logger == nil && os.Getenv("VERIF_SERVER_LOG") != "" {
+		cfg.Logger = logger.MustNewLogger("text", "error", "ISO8601")
+	}
 	if cfg.Logger != nil {
 		opts = append(opts, server.WithLogger(cfg.Logger))
 	}
@@ -293,20 +313,28 @@ func NewOn(cfg Cfg, ds storage.OpenFGADatastore, path string) (*Srv, error) {
 		opts = append(opts, server.WithListObjectsChunkSize(cfg.Chunk))
 	}
 	if cfg.Buffer != 0 {
-		opts = append(opts, server.WithListObjectsBufferCapacity(cfg.Buffer))
+		v := cfg.Buffer
+		if v < 0 {
+			v = 0 // negative means "explicitly unbuffered"
+		}
+		opts = append(opts, server.WithListObjectsBufferCapacity(v))
 	}
 	if cfg.Procs != 0 {
 		opts = append(opts, server.WithListObjectsNumProcs(cfg.Procs))
 	}
-	if cfg.LODeadline != 0 {
-		opts = append(opts, server.WithListObjectsDeadline(cfg.LODeadline))
+	// Deadlines: semantic monitors must never mistake a deadline-truncated answer on a loaded machine
+	// for a wrong one, so unless a check asks for a specific deadline the server gets generous ones.
+	lod, lud, rqt := cfg.LODeadline, cfg.LUDeadline, cfg.ReqTimeout
+	if lod == 0 {
+		lod = 3 * time.Minute
 	}
-	if cfg.LUDeadline != 0 {
-		opts = append(opts, server.WithListUsersDeadline(cfg.LUDeadline))
+	if lud == 0 {
+		lud = 3 * time.Minute
 	}
-	if cfg.ReqTimeout != 0 {
-		opts = append(opts, server.WithRequestTimeout(cfg.ReqTimeout))
+	if rqt == 0 {
+		rqt = 3 * time.Minute
 	}
+	opts = append(opts, server.WithListObjectsDeadline(lod), server.WithListUsersDeadline(lud), server.WithRequestTimeout(rqt))
 	if cfg.LOMax != 0 {
 		opts = append(opts, server.WithListObjectsMaxResults(cfg.LOMax))
 	}
@@ -336,8 +364,10 @@ func NewOn(cfg Cfg, ds storage.OpenFGADatastore, path string) (*Srv, error) {
 
 // Close shuts the server and datastore down and removes the sqlite file.
 func (s *Srv) Close() {
-	s.S.Close()
-	s.DS.Close()
+	s.S.Close() // also closes the datastore it was given (shared ones are shielded by noClose)
+	if s.shared {
+		return
+	}
 	if s.path != "" {
 		_ = os.RemoveAll(filepath.Dir(s.path))
 	}
@@ -358,7 +388,7 @@ func (o Outcome) OK() bool { return o.Err == nil }
 
 func (o Outcome) String() string {
 	if o.Err != nil {
-		return "error(" + o.Code + "): " + truncate(o.Err.Error(), 200)
+		return "error(" + o.Code + "): " + truncate(ErrDetail(o.Err), 300)
 	}
 	if o.Allowed {
 		return "allowed"
@@ -371,6 +401,18 @@ func truncate(s string, n int) string {
 		return s
 	}
 	return s[:n] + "…"
+}
+
+// ErrDetail renders an error together with the internal cause the server hides from clients.
+func ErrDetail(err error) string {
+	if err == nil {
+		return ""
+	}
+	msg := err.Error()
+	if in := errors.Unwrap(err); in != nil && in.Error() != msg {
+		msg += " [internal: " + in.Error() + "]"
+	}
+	return msg
 }
 
 // PanicError is returned by Guard when the wrapped call panicked.
@@ -733,4 +775,41 @@ func ForcedCounts() map[string]int64 {
 		return true
 	})
 	return out
+}
+
+// ---- streamed list objects ----
+
+type loStream struct {
+	ctx   context.Context
+	mu    sync.Mutex
+	items []string
+}
+
+func (s *loStream) Send(r *openfgav1.StreamedListObjectsResponse) error {
+	s.mu.Lock()
+	s.items = append(s.items, r.GetObject())
+	s.mu.Unlock()
+	return nil
+}
+func (s *loStream) SetHeader(metadata.MD) error  { return nil }
+func (s *loStream) SendHeader(metadata.MD) error { return nil }
+func (s *loStream) SetTrailer(metadata.MD)       {}
+func (s *loStream) Context() context.Context     { return s.ctx }
+func (s *loStream) SendMsg(m any) error          { return nil }
+func (s *loStream) RecvMsg(m any) error          { return nil }
+
+// StreamedListObjects runs Server.StreamedListObjects with a collecting stream.
+func (s *Srv) StreamedListObjects(r Req) ListOutcome {
+	ctx, cancel := r.ctx()
+	defer cancel()
+	st := &loStream{ctx: ctx}
+	err := Guard(func() error {
+		return s.S.StreamedListObjects(&openfgav1.StreamedListObjectsRequest{
+			StoreId: r.Store, AuthorizationModelId: r.Model, Type: r.Object, Relation: r.Relation, User: r.User,
+			ContextualTuples: r.contextual(), Context: r.Ctx, Consistency: r.consistency(),
+		}, st)
+	})
+	st.mu.Lock()
+	defer st.mu.Unlock()
+	return listOutcome(append([]string{}, st.items...), err)
 }
